@@ -53,7 +53,8 @@ def gen_dotdot_case(rng, index, tier):
             L, rng, 'x/v1/.Trash/%d' % uid, 'canary%d' % i, 'x/v1/docs/canary-%d' % i,
             '2001-02-03T04:05:0%d' % i, rng.choice(['file', 'tree']),
             'can%d_%d' % (index, i), volume_rel='x/v1'))
-    L.env['TRASH_VOLUMES'] = '@/x/lk/../v1'
+    L.env['TRASH_VOLUMES'] = rng.choice(['@/x/lk/../v1', '@/x/v1:@/x/lk/../v1',
+                                         '@/x/lk/../v1:@/x/v1/'])
     L.cwd = L.home
     case = L.desc()
     case['kind'] = 'dotdot-volume'
